@@ -291,6 +291,33 @@ class AsyncDatagramServer(_transports.AsyncBaseTransport, Generic[_T_Request, _T
 
         client_data.mark_pending()
 
+        if client_data.restart_in_progress:
+            # Nested call: the task started below ran to completion inside start_soon() (asyncio.eager_task_factory
+            # with a request handler which does not yield). Let the outermost call start the next task
+            # instead of recursing once per queued datagram.
+            client_data.restart_requested = True
+            return
+
+        client_data.restart_in_progress = True
+        try:
+            while True:
+                client_data.restart_requested = False
+                self.__start_client_coroutine(datagram_received_cb, client_ctx, client_data, task_group, default_context)
+                if not client_data.restart_requested:
+                    break
+        finally:
+            client_data.restart_in_progress = False
+
+    def __start_client_coroutine(
+        self,
+        datagram_received_cb: Callable[
+            [DatagramClientContext[_T_Response, _T_Address]], AsyncGenerator[float | None, _T_Request]
+        ],
+        client_ctx: DatagramClientContext[_T_Response, _T_Address],
+        client_data: _ClientData,
+        task_group: TaskGroup,
+        default_context: contextvars.Context,
+    ) -> None:
         # Why copy the context before calling run()?
         # Short answer: asyncio.eager_task_factory :)
         #
@@ -346,6 +373,8 @@ class _ClientData:
         "__state",
         "_queue_condition",
         "_datagram_queue",
+        "restart_in_progress",
+        "restart_requested",
         "__weakref__",
     )
 
@@ -354,6 +383,8 @@ class _ClientData:
         self.__state: _ClientState | None = None
         self._queue_condition: ICondition = backend.create_condition_var()
         self._datagram_queue: deque[bytes] = deque()
+        self.restart_in_progress: bool = False
+        self.restart_requested: bool = False
 
     @property
     def backend(self) -> AsyncBackend:
